@@ -306,7 +306,7 @@ fn data_via(mkd: &str, rtype: u16, rdata: &[u8]) -> Option<Result<FlatData, Stri
                 let b = match CharStrBuilder::from_builder(BytesMut::from(&strs[1][..])) { Ok(b) => b, Err(x) => return e(x.to_string()) };
                 (a.finish(), b.finish())
             };
-            if cpu.len() != strs[0].len() || os.iter().copied().collect::<Vec<u8>>() != strs[1] { return e("charstr content".into()); }
+            if cpu.len() != strs[0].len() || os.iter().collect::<Vec<u8>>() != strs[1] { return e("charstr content".into()); }
             Some(Ok(FlatData::from(Hinfo::new(cpu, os))))
         }
         ("typed", 2) => Some(name_at(0).map(|n| FlatData::from(Ns::from(n)))),
@@ -328,8 +328,84 @@ fn data_via(mkd: &str, rtype: u16, rdata: &[u8]) -> Option<Result<FlatData, Stri
             Some(name_at(2).map(|n| FlatData::from(Mx::new(u16::from_be_bytes([rdata[0], rdata[1]]), n)))),
         ("typed", t) | ("builder", t) if t == 65280 || t == 1234 =>
             Some(UnknownRecordData::from_octets(Rtype::from_int(t), Bytes::copy_from_slice(rdata)).map(FlatData::from).map_err(|x| x.to_string())),
+        ("builder", 64) | ("builder", 65) | ("typed", 64) | ("typed", 65) => Some(svcb_via(mkd, rtype, rdata)),
         _ => None,
     }
+}
+
+/// SVCB / HTTPS record data assembled with SvcParamsBuilder: the typed
+/// methods (alpn, port, ipv4hint, ...) for the known keys ("builder") or
+/// value objects pushed one by one ("typed"); the typed getters of SvcParams
+/// must hand the values back.
+fn svcb_via(mkd: &str, rtype: u16, rdata: &[u8]) -> Result<FlatData, String> {
+    use domain::base::iana::SvcParamKey;
+    use domain::rdata::svcb::value::{Alpn, DohPath, Ech, Ipv4Hint, Ipv6Hint, Mandatory, NoDefaultAlpn, Ohttp, Port, TlsSupportedGroups};
+    use domain::rdata::svcb::{Https, Svcb, SvcParams, SvcParamsBuilder, UnknownSvcParam};
+    use std::net::{Ipv4Addr, Ipv6Addr};
+    if rdata.len() < 3 { return Err("short".into()); }
+    let prio = u16::from_be_bytes([rdata[0], rdata[1]]);
+    let mut end = 2;
+    while rdata[end] != 0 { end += 1 + rdata[end] as usize; }
+    end += 1;
+    let target = Name::<Bytes>::from_octets(Bytes::copy_from_slice(&rdata[2..end])).map_err(|e| e.to_string())?;
+    let wire = &rdata[end..];
+    let mut b = SvcParamsBuilder::<BytesMut>::empty();
+    let mut p = wire;
+    let es = |x: &dyn std::fmt::Display| x.to_string();
+    while p.len() >= 4 {
+        let key = u16::from_be_bytes([p[0], p[1]]);
+        let n = u16::from_be_bytes([p[2], p[3]]) as usize;
+        let v = &p[4..4 + n];
+        p = &p[4 + n..];
+        let keys16 = || -> Vec<SvcParamKey> { v.chunks(2).map(|c| SvcParamKey::from_int(u16::from_be_bytes([c[0], c[1]]))).collect() };
+        let typed = mkd == "typed";
+        match key {
+            0 if typed => b.push(&Mandatory::from_keys::<Vec<u8>>(keys16().into_iter()).map_err(|e| es(&e))?).map_err(|e| es(&e))?,
+            0 => b.mandatory(keys16()).map_err(|e| es(&e))?,
+            1 if typed => b.push(Alpn::from_slice(v).map_err(|e| es(&e))?).map_err(|e| es(&e))?,
+            1 => { let mut ids: Vec<&[u8]> = vec![]; let mut q = v; while !q.is_empty() { let k = q[0] as usize; ids.push(&q[1..=k]); q = &q[k + 1..]; }
+                   b.alpn(&ids).map_err(|e| es(&e))? }
+            2 if typed => b.push(&NoDefaultAlpn).map_err(|e| es(&e))?,
+            2 => b.no_default_alpn().map_err(|e| es(&e))?,
+            3 if typed => b.push(&Port::new(u16::from_be_bytes([v[0], v[1]]))).map_err(|e| es(&e))?,
+            3 => b.port(u16::from_be_bytes([v[0], v[1]])).map_err(|e| es(&e))?,
+            4 if typed => b.push(&Ipv4Hint::from_addrs::<Vec<u8>>(v.chunks(4).map(|c| Ipv4Addr::new(c[0], c[1], c[2], c[3]))).map_err(|e| es(&e))?).map_err(|e| es(&e))?,
+            4 => b.ipv4hint(v.chunks(4).map(|c| Ipv4Addr::new(c[0], c[1], c[2], c[3])).collect::<Vec<_>>()).map_err(|e| es(&e))?,
+            5 if typed => b.push(Ech::from_slice(v).map_err(|e| es(&e))?).map_err(|e| es(&e))?,
+            5 => b.ech(v).map_err(|e| es(&e))?,
+            6 if typed => b.push(&Ipv6Hint::from_addrs::<Vec<u8>>(v.chunks(16).map(|c| { let mut a = [0u8; 16]; a.copy_from_slice(c); Ipv6Addr::from(a) })).map_err(|e| es(&e))?).map_err(|e| es(&e))?,
+            6 => b.ipv6hint(v.chunks(16).map(|c| { let mut a = [0u8; 16]; a.copy_from_slice(c); Ipv6Addr::from(a) }).collect::<Vec<_>>()).map_err(|e| es(&e))?,
+            7 if typed => b.push(DohPath::from_slice(v).map_err(|e| es(&e))?).map_err(|e| es(&e))?,
+            7 => b.dohpath(std::str::from_utf8(v).map_err(|e| es(&e))?).map_err(|e| es(&e))?,
+            8 if typed => b.push(&Ohttp).map_err(|e| es(&e))?,
+            8 => b.ohttp().map_err(|e| es(&e))?,
+            9 if typed => b.push(&TlsSupportedGroups::from_keys::<Vec<u8>>(keys16().into_iter()).map_err(|e| es(&e))?).map_err(|e| es(&e))?,
+            9 => b.tls_supported_groups(keys16()).map_err(|e| es(&e))?,
+            k => b.push(&UnknownSvcParam::new(SvcParamKey::from_int(k), v).map_err(|e| es(&e))?).map_err(|e| es(&e))?,
+        }
+    }
+    let params: SvcParams<Bytes> = b.freeze::<Bytes>().map_err(|_| "freeze".to_string())?;
+    if params.as_slice() != wire { return Err("SvcParamsBuilder assembled different parameters".into()); }
+    // the typed getters find what was put in
+    let get = |k: u16| -> Option<&[u8]> { let mut p = wire; while p.len() >= 4 { let n = u16::from_be_bytes([p[2], p[3]]) as usize;
+        if u16::from_be_bytes([p[0], p[1]]) == k { return Some(&p[4..4 + n]); } p = &p[4 + n..]; } None };
+    let same = params.mandatory().map(|x| x.as_slice().to_vec()) == get(0).map(|x| x.to_vec())
+        && params.alpn().map(|x| x.as_slice().to_vec()) == get(1).map(|x| x.to_vec())
+        && params.no_default_alpn() == get(2).is_some()
+        && params.port().map(|x| x.port().to_be_bytes().to_vec()) == get(3).map(|x| x.to_vec())
+        && params.ipv4hint().map(|x| x.as_slice().to_vec()) == get(4).map(|x| x.to_vec())
+        && params.ech().map(|x| x.as_slice().to_vec()) == get(5).map(|x| x.to_vec())
+        && params.ipv6hint().map(|x| x.as_slice().to_vec()) == get(6).map(|x| x.to_vec())
+        && params.dohpath().map(|x| x.as_slice().to_vec()) == get(7).map(|x| x.to_vec())
+        && params.ohttp() == get(8).is_some()
+        && params.tls_supported_groups().map(|x| x.as_slice().to_vec()) == get(9).map(|x| x.to_vec());
+    if !same { return Err("SvcParams getters differ from what was built".into()); }
+    // and SvcParamsBuilder::from_params copies them
+    let again: SvcParams<Bytes> = SvcParamsBuilder::<BytesMut>::from_params(&params).map_err(|_| "from_params".to_string())?
+        .freeze::<Bytes>().map_err(|_| "freeze".to_string())?;
+    if again.as_slice() != wire { return Err("SvcParamsBuilder::from_params differs".into()); }
+    if rtype == 64 { Svcb::new(prio, target, params).map(FlatData::from).map_err(|e| e.to_string()) }
+    else { Https::new(prio, target, params).map(FlatData::from).map_err(|e| e.to_string()) }
 }
 
 /// The record, built by route `mk` (record) x `mkd` (data).
@@ -362,8 +438,8 @@ pub fn record_via(mk: &str, mkd: &str, owner: &[u8], class: u16, ttl: u32, rtype
             w.extend_from_slice(rdata);
             let b = Bytes::from(w);
             let mut p = Parser::from_ref(&b);
-            let h = RecordHeader::<ParsedName<Bytes>>::parse_and_skip(&mut p).map_err(|e| format!("parse_and_skip: {}", e))?;
-            if p.remaining() != 0 || h.rdlen() as usize != rdata.len() { return Err("parse_and_skip: position".into()); }
+            let h = RecordHeader::<ParsedName<Bytes>>::parse(&mut p).map_err(|e| format!("RecordHeader::parse: {}", e))?;
+            if p.remaining() != rdata.len() || h.rdlen() as usize != rdata.len() { return Err("RecordHeader::parse: position".into()); }
             let mut p = Parser::from_ref(&b);
             let r = Record::<ParsedName<Bytes>, ZoneRecordData<Bytes, ParsedName<Bytes>>>::parse(&mut p)
                 .map_err(|e| format!("Record::parse: {}", e))?.ok_or("Record::parse: none")?;
@@ -391,7 +467,29 @@ fn fmt_kind<T: ZonefileFmt + std::fmt::Display>(r: &T, kind: &str) -> String {
 pub fn write_record_via(wr: &str, r: &FlatRecord, kind: &str) -> String {
     let mut s = match wr {
         "all" => {
-            let d: AllRecordData<Bytes, Name<Bytes>> = r.data().clone().into();
+            // the data as AllRecordData: From<the concrete type> where the type is one
+            // of the modelled ones, else parsed from the wire form and flattened
+            let mut w: Vec<u8> = Vec::new();
+            let _ = r.data().compose_rdata(&mut w);
+            let b = Bytes::from(w);
+            let mut p = Parser::from_ref(&b);
+            let d: AllRecordData<Bytes, Name<Bytes>> = match r.data().clone() {
+                ZoneRecordData::Txt(x) => x.into(),
+                ZoneRecordData::Hinfo(x) => x.into(),
+                ZoneRecordData::Ns(x) => x.into(),
+                ZoneRecordData::Cname(x) => x.into(),
+                ZoneRecordData::Ptr(x) => x.into(),
+                ZoneRecordData::Dname(x) => x.into(),
+                ZoneRecordData::Mx(x) => x.into(),
+                ZoneRecordData::Unknown(x) => x.into(),
+                _ => match AllRecordData::<Bytes, ParsedName<Bytes>>::parse_rdata(r.rtype(), &mut p) {
+                    Ok(Some(x)) => x.flatten_into(),
+                    _ => return "<AllRecordData::parse_rdata failed>\n".to_string(),
+                },
+            };
+            // and back: From<AllRecordData> for Result<ZoneRecordData, AllRecordData>
+            let back: Result<FlatData, AllRecordData<Bytes, Name<Bytes>>> = d.clone().into();
+            if back.ok().as_ref() != Some(r.data()) { return "<AllRecordData -> ZoneRecordData differs>\n".to_string(); }
             fmt_kind(&Record::new(r.owner().clone(), r.class(), r.ttl(), d), kind)
         }
         "ref" => fmt_kind(&r, kind),
